@@ -1,11 +1,16 @@
 package props
 
 import (
+	"bytes"
 	"errors"
 	"fmt"
+	"math/rand"
 	"os"
+	"path/filepath"
+	"time"
 
 	badger "github.com/dgraph-io/badger/v4"
+	"github.com/dgraph-io/badger/v4/pb"
 
 	"verif/h/core"
 	"verif/h/drv"
@@ -63,12 +68,146 @@ func checkNewCommitAbove(c *core.Ctx, sig string, db *badger.DB, k []byte, tok s
 	}
 }
 
+// c11LoadCrash: entries that reach a database without the transaction machinery (DB.Load, KVLoader:
+// they keep the versions they had in the source) and live only in a memtable WAL when the process
+// dies. The crash image is a copy of the live directory (what a killed process leaves in the page
+// cache); after its re-open the first commit must be above everything loaded, and must be what the
+// following reads return once a few more commits have moved the read timestamp on.
+func c11LoadCrash(c *core.Ctx, work string, idx int, r *rand.Rand) {
+	src := filepath.Join(work, fmt.Sprintf("lc-src%d", idx))
+	dst := filepath.Join(work, fmt.Sprintf("lc-dst%d", idx))
+	img := filepath.Join(work, fmt.Sprintf("lc-img%d", idx))
+	defer func() { os.RemoveAll(src); os.RemoveAll(dst); os.RemoveAll(img) }()
+	mk := func(dir string) badger.Options {
+		_ = os.MkdirAll(dir, 0o755)
+		o, _ := drvOptions(dir, idx)
+		o.NumCompactors = 0
+		o.MemTableSize = 4 << 20 // what is loaded stays in the memtable WAL
+		o.ValueThreshold = []int64{32, 1 << 10}[idx%2]
+		return o
+	}
+	sdb, err := badger.Open(mk(src))
+	if err != nil {
+		c.Inconclusive("open: " + err.Error())
+		return
+	}
+	nSrc := 15 + r.Intn(60)
+	for i := 0; i < nSrc; i++ {
+		k := []byte(fmt.Sprintf("key-%02d", r.Intn(20)))
+		_ = sdb.Update(func(txn *badger.Txn) error {
+			if r.Intn(8) == 0 {
+				return txn.Delete(k)
+			}
+			return txn.Set(k, gen.Expand(fmt.Sprintf("s%d.%d", idx, i), 20+r.Intn(200)))
+		})
+	}
+	var buf bytes.Buffer
+	_, err = sdb.Backup(&buf, 0)
+	// the same content as a list of KVs (newest version of every live key) for the KVLoader variant
+	var kvs []*pb.KV
+	_ = sdb.View(func(txn *badger.Txn) error {
+		it := txn.NewIterator(badger.DefaultIteratorOptions)
+		defer it.Close()
+		for it.Rewind(); it.Valid(); it.Next() {
+			v, _ := it.Item().ValueCopy(nil)
+			kvs = append(kvs, &pb.KV{Key: it.Item().KeyCopy(nil), Value: v, Version: it.Item().Version(), UserMeta: []byte{it.Item().UserMeta()}})
+		}
+		return nil
+	})
+	_ = sdb.Close()
+	if err != nil {
+		c.Inconclusive("backup: " + err.Error())
+		return
+	}
+	do := mk(dst)
+	ddb, err := badger.Open(do)
+	if err != nil {
+		c.Inconclusive("open: " + err.Error())
+		return
+	}
+	// the target may already hold a few (older) commits of its own, flushed to a table or not
+	pre := []int{0, 3, 8}[idx%3]
+	for i := 0; i < pre; i++ {
+		_ = ddb.Update(func(txn *badger.Txn) error { return txn.Set([]byte(fmt.Sprintf("own-%d", i)), []byte("own")) })
+	}
+	if pre > 0 && idx%2 == 0 {
+		_, _ = ddb.VerifRotateMemtable()
+		ddb.VerifWaitFlushed(10 * time.Second)
+	}
+	how := "load"
+	if idx%4 == 3 {
+		// the same entries through a KVLoader fed from a stream of the backup's contents
+		how = "kvloader"
+	}
+	if how == "kvloader" {
+		ld := ddb.NewKVLoader(1 + r.Intn(16))
+		for _, kv := range kvs {
+			if err == nil {
+				err = ld.Set(kv)
+			}
+		}
+		if e := ld.Finish(); err == nil {
+			err = e
+		}
+	} else {
+		err = ddb.Load(bytes.NewReader(buf.Bytes()), 1+r.Intn(16))
+	}
+	if err != nil {
+		c.Violation("C11|load-crash|load-error", err.Error(), nil)
+		_ = ddb.Close()
+		return
+	}
+	loadedMax := maxStoredVersion(ddb)
+	if err := copyDirE(dst, img); err != nil {
+		c.Inconclusive("image copy: " + err.Error())
+		_ = ddb.Close()
+		return
+	}
+	_ = ddb.Close()
+	io := mk(img)
+	idb, err := badger.Open(io)
+	if err != nil {
+		c.Violation("C11|load-crash|reopen-error", err.Error(), nil)
+		return
+	}
+	defer idb.Close()
+	c.Eval(1)
+	wit := map[string]any{"source_commits": nSrc, "own_commits_before_load": pre, "how": how, "max_version_loaded": loadedMax, "value_threshold": io.ValueThreshold}
+	if m := maxStoredVersion(idb); m < loadedMax {
+		// part of what was loaded may be lost with the process (nothing was synced): then this case says nothing
+		c.Count("ts.load_crash_images_that_lost_entries", 1)
+	}
+	k := []byte(fmt.Sprintf("key-%02d", r.Intn(20)))
+	checkNewCommitAbove(c, "C11|load-crash", idb, k, fmt.Sprintf("lc%d", idx), wit)
+	want := gen.Expand(fmt.Sprintf("lc%d", idx), 40)
+	for i := 0; i < 5+r.Intn(40); i++ {
+		_ = idb.Update(func(txn *badger.Txn) error { return txn.Set([]byte(fmt.Sprintf("later-%d", i)), []byte("x")) })
+	}
+	err = idb.View(func(txn *badger.Txn) error {
+		it, err := txn.Get(k)
+		if err != nil {
+			return err
+		}
+		v, _ := it.ValueCopy(nil)
+		if string(v) != string(want) {
+			c.Violation("C11|load-crash|stale-read-after-more-commits", fmt.Sprintf("key %s: after further commits a read returns version %d with another value than the one committed after the re-open", k, it.Version()), wit)
+		}
+		return nil
+	})
+	if err != nil {
+		c.Violation("C11|load-crash|stale-read-after-more-commits", fmt.Sprintf("key %s committed after the re-open: %v", k, err), wit)
+	}
+	c.Count("ts.load_crash_cases", 1)
+	c.Distinct(fmt.Sprintf("load-crash|%s|own=%d|flushed=%v|vt=%d", how, pre, pre > 0 && idx%2 == 0, io.ValueThreshold))
+}
+
 // C11 commits after any re-open get timestamps above every stored version (clean-close and DropAll
 // variants here; crash, Load and StreamWriter variants are run by C08, C24 and C26 with the same oracle).
 func C11(c *core.Ctx) {
 	c.Rule("driver histories (commits, flushes, compactions leaving data in memtable WALs, L0 and deeper levels) followed by clean close/re-open cycles and DropAll; after " +
 		"each, the maximum version over an InternalAccess+AllVersions scan is taken, a new transaction overwrites an existing key, and its version must exceed that maximum " +
-		"and its value must be what the next read returns; the same oracle runs after crash recovery (C08), Load (C24) and StreamWriter.Flush (C26); distinct = (options, " +
+		"and its value must be what the next read returns; Load-then-crash cases: a backup is loaded into a database (empty, or with a few own commits flushed or not), the live " +
+		"directory is copied as the image a killed process leaves, the image is opened and the same oracle runs, followed by more commits and a re-read; the same oracle runs after crash recovery (C08), Load (C24) and StreamWriter.Flush (C26); distinct = (options, " +
 		"kind of re-open, where the newest version lived: memtable WAL / L0 / deeper level)")
 	work := c.WorkDir()
 	defer os.RemoveAll(work)
@@ -77,6 +216,10 @@ func C11(c *core.Ctx) {
 	rs := c.Rand("c11-streamwriter")
 	for j := 0; j < c.Pick(4, 24); j++ {
 		c26Run(c, "C11|streamwriter", work, 8*j+5, rs)
+	}
+	rl := c.Rand("c11-load-crash")
+	for j := 0; j < c.Pick(12, 120); j++ {
+		c11LoadCrash(c, work, j, rl)
 	}
 	r := c.Rand("c11")
 	n := c.Pick(24, 200)
